@@ -1188,3 +1188,36 @@ def f_clear_total(P, E):
                   "FunctionWrapper::clear can return without having stored None into the slot: the callback stays callable (and exists() "
                   "true) after a terminal / an unsubscribe cleared it", body=b)
     return r
+
+
+def f_direct_call(P, E):
+    """Between fetching the callable out of the slot and calling it, FunctionWrapper runs no code of the user's: the argument is MOVED into
+    the call.  (A `clone()` of the generic argument there is user code - `Item::clone` - running after Observer::next's is_subscribed()
+    test and the fetch: a terminal delivered meanwhile is followed by this item.)"""
+    r = RuleResult("F-direct-call", "FunctionWrapper::call* hand their argument to the callable without running generic (user) code in between")
+    n = 0
+    for name in ("call", "call_if_available", "call_and_clear_if_available"):
+        b = P.body(FW + "::" + name)
+        if b is None:
+            r.error("anchor missing: FunctionWrapper::%s" % name)
+            continue
+        n += 1
+        bad = []
+        for c in b.calls:
+            if c.path in ("std::clone::Clone::clone", "std::borrow::ToOwned::to_owned", "std::convert::Into::into", "std::convert::From::from",
+                          "std::default::Default::default", "std::cmp::PartialEq::eq", "std::ops::Drop::drop") and c.args:
+                l = c.args[0]["p"][0] if c.args[0].get("k") in ("copy", "move") else None
+                ty = b.locals[l]["ty"] if l is not None else {}
+                inner = ty
+                while inner.get("k") in ("ref", "ptr") and inner.get("inner"):
+                    inner = inner["inner"]
+                if inner.get("k") == "param":
+                    bad.append((c, inner.get("s")))
+        r.instance((b.nid, "argument handed on"), True, "generic calls on the argument: %d" % len(bad))
+        for (c, tyname) in bad:
+            r.violate((b.nid, "user code between fetch and call"),
+                      "FunctionWrapper::%s calls %s on a value of the type parameter `%s` (user code) before it invokes the callable: an event "
+                      "that the observer's gate let through is delivered after whatever happened during that call" % (name, c.path.split("::")[-1], tyname),
+                      body=b, line=c.line)
+            break
+    return r
